@@ -152,6 +152,11 @@ impl Fdt {
             .collect()
     }
 
+    #[cfg(feature = "ypo_flute_verif")]
+    pub fn verif_toi_reserved_count(&self) -> usize {
+        self.toi_allocator.verif_reserved_count()
+    }
+
     pub fn allocate_toi(&mut self) -> Box<Toi> {
         ToiAllocator::allocate(&self.toi_allocator)
     }
